@@ -30,10 +30,6 @@ package sqlx
 //@ import "context"
 //@ extern func (d migrate.PlanApplier) ApplyChanges(ctx context.Context, changes []schema.Change, opts ...migrate.PlanOption) (err error)
 //@   effect if !migrate.GvcSnapOpen { migrate.GvcUnprotected = true }; migrate.GvcDirty = true
-//@ extern func (i schema.Inspector) InspectRealm(ctx context.Context, opts *schema.InspectRealmOption) (r *schema.Realm, err error)
-//@   ensures err == nil ==> r != nil
-//@ extern func (i schema.Inspector) InspectSchema(ctx context.Context, name string, opts *schema.InspectOptions) (s *schema.Schema, err error)
-//@   ensures err == nil ==> s != nil
 //@ extern func (d schema.Differ) SchemaDiff(from, to *schema.Schema, opts ...schema.DiffOption) (cs []schema.Change, err error)
 
 //@ func (d *DevDriver) NormalizeRealm(ctx context.Context, r *schema.Realm) (nr *schema.Realm, err error)
